@@ -2,7 +2,7 @@
 # usage: tools/mutcheck.sh <patch.diff> <PID> [tier]   -- run a check against a scratch worktree of /repo with the patch applied
 # (never touches /repo; the evidence file is not rewritten when VERIF_REPO is set)
 set -e
-PATCH=$1; PID=$2; TIER=${3:-quick}
+PATCH=$(readlink -f $1); PID=$2; TIER=${3:-quick}
 WT=/dev/shm/repo-mut-$$
 git -C /repo worktree add --detach $WT HEAD >/dev/null 2>&1
 trap 'git -C /repo worktree remove --force '$WT' >/dev/null 2>&1' EXIT
